@@ -466,6 +466,14 @@ def mapSource (get : String → Option Val) : BSx → M Val
   | .list _ => throw (.other "TypeError")         -- unhashable dictionary key
   | _ => throw (.jaqal "map-source-does-not-exist")
 
+/-- `if stop is None: stop = src.size` -/
+def defaultStop (src stop0 : Val) : M Val :=
+  if stop0 == .none then
+    match src with
+    | .param _ _ => throw (.other "AttributeError")      -- a `Parameter` has no `.size`
+    | _ => regSize src
+  else pure stop0
+
 /-- One `build_<command>` step for the value commands: `get` is `context.get`, `rec` is `self.build` on a
 sub-expression (one level of fuel less). -/
 def valStep (get : String → Option Val) (rec : BSx → M Val) (l : List BSx) : M Val :=
@@ -510,11 +518,7 @@ def valStep (get : String → Option Val) (rec : BSx → M Val) (l : List BSx) :
           let start0 ← rec startE
           let start := if start0 == .none then .int 0 else start0
           let stop0 ← rec stopE
-          let stop ← (if stop0 == .none then
-              match src with
-              | .param _ _ => throw (.other "AttributeError")      -- a `Parameter` has no `.size`
-              | _ => regSize src
-            else pure stop0 : M Val)
+          let stop ← defaultStop src stop0
           let step0 ← rec stepE
           let step := if step0 == .none then .int 1 else step0
           mkSlice n src start stop step
@@ -628,6 +632,12 @@ def macroParam : BSx → M (String × Kind)
 def Ctx.withParams (ctx : Ctx) (ps : List (String × Kind)) : Ctx :=
   { ctx with vars := (ps.reverse.map (fun p => (p.1, Val.param p.1 p.2))) ++ ctx.vars }
 
+/-- the iteration count of a subcircuit block: `""` and `None` read as 1 -/
+def subCount (recV : BSx → M Val) : BSx → M Val
+  | .str "" => pure (.int 1)
+  | .none => pure (.int 1)
+  | e => recV e
+
 /-- One `build_<command>` step in general position: `recA` is `self.build` on a sub-expression in a given context,
 `recV` the same for sub-expressions in value positions. -/
 def anyStep (cfg : Config) (mode : KeyMode) (recA : Ctx → BSx → St → M (Obj × St)) (recV : BSx → M Val)
@@ -654,10 +664,7 @@ def anyStep (cfg : Config) (mode : KeyMode) (recA : Ctx → BSx → St → M (Ob
         match args with
         | [] => throw (.other "IndexError")
         | countE :: _ => do
-          let count ← (match countE with
-            | .str "" => pure (.int 1)
-            | .none => pure (.int 1)
-            | e => recV e : M Val)
+          let count ← subCount recV countE
           validateCount count
           pure (.stmt (.block false true count (← asStmts os)), st')
     else if cmd = "loop" then
